@@ -59,7 +59,10 @@ pub struct FileSpec {
 #[derive(Clone, Debug, Serialize, Deserialize)]
 pub enum Refusal {
     OtherRun(u16),
-    DuplicateInitialTimestamp,
+    /// duplicate of file `which` (same initial timestamp, sub-second, no events)
+    /// inserted at argument position `pos`. Many generated files are sub-second
+    /// themselves, so that often only the duplicate rule can refuse the run.
+    DuplicateInitialTimestamp { which: u16, pos: u16 },
     BadExtension(u8),
 }
 #[derive(Clone, Debug, Serialize, Deserialize)]
@@ -219,15 +222,18 @@ fn oracle(c: &RunCase, ev: &mut Ev) -> Outcome {
                     f.initial_ts = f.final_ts + 5;
                     f.final_ts += 6;
                     args.push(f.write(&dir, "otherrun").map_err(|e| Fail::new("harness-io", e.to_string()))?);
-                    if args.len() > 1 && *d % 2 == 0 {
-                        args.rotate_right(1);
-                    }
+                    // anywhere in the argument list
+                    let at = (*d as usize / 2) % args.len();
+                    let last = args.len() - 1;
+                    args.swap(at, last);
                 }
-                Refusal::DuplicateInitialTimestamp => {
-                    let mut f = b.files[0].clone();
+                Refusal::DuplicateInitialTimestamp { which, pos } => {
+                    let k = crate::gen::pick(*which, n);
+                    let mut f = b.files[k].clone();
                     f.final_ts = f.initial_ts;
                     f.events.clear();
-                    args.push(f.write(&dir, "dupts").map_err(|e| Fail::new("harness-io", e.to_string()))?);
+                    let at = crate::gen::pick(*pos, args.len() + 1);
+                    args.insert(at, f.write(&dir, "dupts").map_err(|e| Fail::new("harness-io", e.to_string()))?);
                 }
                 Refusal::BadExtension(k) => {
                     let ext = ["midx", "gz", "MID", "mid.bak", ""][*k as usize % 5];
@@ -354,7 +360,7 @@ fn ev_spec() -> impl Strategy<Value = EvSpec> {
 }
 
 fn file_spec() -> impl Strategy<Value = FileSpec> {
-    (prop_oneof![1 => vec(ev_spec(), 0..=2), 4 => vec(ev_spec(), 2..=20), 1 => vec(ev_spec(), 20..=60)], any::<bool>(), prop::bool::weighted(0.2), 0u16..400, 0u16..600, 0u8..2)
+    (prop_oneof![1 => vec(ev_spec(), 0..=2), 4 => vec(ev_spec(), 2..=20), 1 => vec(ev_spec(), 20..=60)], any::<bool>(), prop::bool::weighted(0.2), 0u16..400, prop_oneof![2 => Just(0u16), 3 => 0u16..600], 0u8..2)
         .prop_map(|(events, lz4, big_endian, odb_len, duration, gap)| FileSpec { events, lz4, big_endian, odb_len, duration, gap })
 }
 
@@ -365,7 +371,7 @@ fn case() -> impl Strategy<Value = RunCase> {
         any::<u32>(),
         vec(file_spec(), 1..=4),
         vec(any::<u16>(), 0..=4),
-        prop::option::weighted(0.15, prop_oneof![any::<u16>().prop_map(Refusal::OtherRun), Just(Refusal::DuplicateInitialTimestamp), (0u8..5).prop_map(Refusal::BadExtension)]),
+        prop::option::weighted(0.2, prop_oneof![2 => any::<u16>().prop_map(Refusal::OtherRun), 3 => (any::<u16>(), any::<u16>()).prop_map(|(which, pos)| Refusal::DuplicateInitialTimestamp { which, pos }), 1 => (0u8..5).prop_map(Refusal::BadExtension)]),
         prop::option::weighted(0.25, fwd::truth()),
     )
         .prop_map(|(run, base_ts, first_trg, mut files, arg_order, refusal, forward)| {
